@@ -6,7 +6,7 @@ pid=$1; k=$2; wt=/tmp/wt-$pid; out=/tmp/seedout/$pid/$k
 export CARGO_TARGET_DIR=$wt/target
 cd $wt || exit 2
 git checkout -q -- . ; git clean -fdq -e out -e target
-demo_path=$(python3 -c "import json;print(json.load(open('$out/meta.json'))['demo_path'])")
+demo_path=$(python3 -c "import json;print(json.load(open('$out/meta.json'))['demo_path'].split()[0])")
 demo_cmd=$(python3 -c "import json;print(json.load(open('$out/meta.json'))['demo_cmd'])")
 demo_cmd=$(echo "$demo_cmd" | sed -e 's/CARGO_TARGET_DIR=[^ ]* //')
 crates=$(git apply --numstat $out/patch.diff | awk '{print $3}' | sed -E 's#^actors/([a-z]+)/.*#fil_actor_\1#; s#^runtime/.*#fil_actors_runtime#' | sort -u)
